@@ -1,14 +1,14 @@
 SPECIFICATION Spec
 CONSTANTS
-  NG = 1
-  NO = 2
+  NG = 0
+  NO = 1
   ND = 2
   NP = 1
   Names = {"a"}
   Vals = {1}
-  Acts = {"CreateGroup", "CreateObject", "AddData", "AddToGroup", "RemoveNotAChild", "RemovePair", "Close", "Open"}
+  Acts = {"CreateObject", "AddData", "RemoveViaParent", "DropRef", "Collect", "Purge", "LookupDead", "Close", "Open"}
   Deviations = {"CloseKeepsOrphans"}
-  MaxDepth = 6
+  MaxDepth = 8
 CONSTRAINT DepthBound
 VIEW vw
 INVARIANT TypeOK
